@@ -221,6 +221,7 @@ type routerObs struct {
 	any      string
 	gets     []string
 	panicked string
+	nrGen    int // which installation of the no-route handler ran
 }
 
 type routerLine struct{ op, out string }
@@ -395,6 +396,15 @@ type routerTable struct {
 	ok      []routerSpRoute // successfully registered, id = position
 	tainted bool            // a refused registration may have left nodes behind (outside the theorem)
 	nolead  bool            // some accepted pattern has no leading '/' (outside the quantifier)
+	nrGen   int             // how often HandleNoRoute has been called on this mux
+}
+
+// installNoRoute (re)installs the no-route handler; each installation is told apart by its number, so
+// that a request served by a handler installed EARLIER (remembered in pooled per-request state) shows.
+func (w *routerWorker) installNoRoute(t *routerTable) {
+	t.nrGen++
+	gen := t.nrGen
+	t.mux.HandleNoRoute(func(s *httpd.Store) { w.record(-1, s); w.cur.nrGen = gen })
 }
 
 // setup registers the table; emit says whether lines for the Lean driver are produced.
@@ -415,7 +425,15 @@ func (w *routerWorker) setup(regs []routerReg, emit bool) *routerTable {
 		}
 		want, caps, es := routerSpRegister(t.ok, norm)
 		if cls != want {
-			w.violate("register-error-class", fmt.Sprintf("Handle(%q, %q): got %q, the route list says %q", r.Pattern, r.Method, cls, want), routerReplay{Table: regs})
+			// The property speaks about tables of SUCCESSFULLY registered routes; how a refused registration is
+			// reported, and whether the code is stricter or laxer than the documented pattern rules, is not part
+			// of it. The direct oracle therefore only notes the difference (and leaves a table whose
+			// acceptance differs alone); class and acceptance as they are today are compared by the model
+			// stream (`handle` lines), i.e. by the tie.
+			w.cnt["handle.differs-from-route-list"]++
+			if (cls == "") != (want == "") {
+				t.tainted = true
+			}
 		}
 		w.cnt["handle."+map[bool]string{true: "ok", false: cls}[cls == ""]]++
 		if emit {
@@ -439,7 +457,7 @@ func (w *routerWorker) setup(regs []routerReg, emit bool) *routerTable {
 			t.tainted = true
 		}
 	}
-	t.mux.HandleNoRoute(func(s *httpd.Store) { w.record(-1, s) })
+	w.installNoRoute(t)
 	w.names = sortedKeys(nameSet)
 	return t
 }
@@ -481,6 +499,9 @@ func (w *routerWorker) request(t *routerTable, p *routerPath, method string, emi
 	}
 	if res.id < 0 {
 		w.nNoRoute++
+		if c.nrGen != t.nrGen {
+			w.violate("selection", fmt.Sprintf("%q %q: the no-route handler installed by call %d of HandleNoRoute ran, the one in force is that of call %d", method, p.s, c.nrGen, t.nrGen), replay())
+		}
 		bad := c.ipath != "" || c.imethod != "" || c.any != ""
 		for _, g := range c.gets {
 			bad = bad || g != ""
@@ -975,6 +996,9 @@ func routerRandomTable(w *routerWorker, r *Rng) {
 			m := routerRandMethod(r, t)
 			emit := (i*4+k)%emitEvery == 0 || i < len(routerFixedPaths) && k == 0
 			w.request(t, p, m, emit, emit)
+		}
+		if i%37 == 20 {
+			w.installNoRoute(t) // the no-route handler is replaced while the mux is in service
 		}
 	}
 	if len(w.smpl) < 2 {
